@@ -3,7 +3,7 @@ from tv import rrelast as A
 
 ID = 'C12'
 LEVEL = 'exploration'
-QUICK_S = 150
+QUICK_S = 120
 THOROUGH_S = 420
 EXHAUSTIVE_CLAIM = True
 TECHNIQUE = 'runtime monitoring: exhaustive small-scope enumeration of RREL ASTs + print/re-parse structural oracle + evaluation differential'
@@ -141,9 +141,10 @@ def run(ctx):
     for i in ctx.indices(len(space), 'exhaustive', exhaustive=True):
         one(ctx, space[i], {'phase': 'exh', 'size': size, 'i': i}, do_find=(i % 7 == 0))
     ctx.deadline = ctx.t0 + total
-    n = 6000 if ctx.tier == 'quick' else 300000
+    n = 2500 if ctx.tier == 'quick' else 300000
     for i in ctx.indices(n, 'random'):
-        one(ctx, rand_ast(ctx, i), {'phase': 'rand', 'i': i}, do_find=(i % 3 == 0))
+        with ctx.time_limit(2):
+            one(ctx, rand_ast(ctx, i), {'phase': 'rand', 'i': i}, do_find=(i % 3 == 0))
 
 
 NAMES = ['packages', 'classes', 'methods', 'attrs', 'sup', 'type', 'uses', 'pkg', 'parent', 'x_1', 'é']
@@ -154,7 +155,8 @@ FIXED = [('a', "'"), ('b', '"'), ('it\\\'s', "'"), ("it's", '"'), ('x"y', "'"), 
 
 def rand_ast(ctx, i):
     r = ctx.rng('rand', i)
-    return A.rand_expr(r, NAMES, TYPES, FIXED, maxdepth=3)
+    # nesting depth 3 costs ~100x more parse time (the RREL parser backtracks): mostly depth 2
+    return A.rand_expr(r, NAMES, TYPES, FIXED, maxdepth=r.choices([1, 2, 3], [29, 70, 1])[0])
 
 
 def replay(ctx, rep):
